@@ -243,6 +243,46 @@ example : crun true ⟨.waiting, 1⟩ [.request, .respond, .loopTop] = some ⟨.
 example : (run false (Srv.new 3) [.grant, .acceptOk, .grant, .acceptOk, .grant, .acceptOk, .revoke, .seeRevoked]).map
     (fun s => (s.acc, s.serving, s.tokens.units)) = some (Acc.stopped, 3, 0) := by decide
 
+/-! ### Revocation while `k` connections are being served (for instance: every thread of the handler pool is inside a handler) -/
+
+theorem run_fill (n : Nat) : ∀ (k j : Nat), j + k ≤ n →
+    run false { tokens := ⟨n, n - j, j⟩, serving := j } (fill k) =
+      some { tokens := ⟨n, n - (j + k), j + k⟩, serving := j + k } := by
+  intro k
+  induction k with
+  | zero => intro j _; simp [fill, run]
+  | succ k ih =>
+    intro j h
+    have hu : n - j > 0 := by omega
+    have := ih (j + 1) (by omega)
+    simp only [fill, run, step, Tokens.take, hu, and_self, if_true, Bool.false_eq_true, if_false]
+    have e1 : n - j - 1 = n - (j + 1) := by omega
+    have e2 : j + 1 + k = j + (k + 1) := by omega
+    simp only [e1, e2] at this ⊢
+    simpa using this
+
+/-- C13: with any number `k ≤ max_conns` of connections being served — whatever they are doing: their handlers may occupy
+    every thread of the handler pool — the revocation is observed by the accept loop in one step of its own: it stops
+    (listener released, signal sent) while the `k` connections go on being served; none of their slots is touched. -/
+theorem C13_stops_while_serving (n k : Nat) (hk : k ≤ n) :
+    run false (Srv.new n) (fill k ++ [.revoke, .seeRevoked]) =
+      some { tokens := ⟨n, n - k, k⟩, acc := .stopped, serving := k, revoked := true } := by
+  have h := run_fill n k 0 (by omega)
+  have hrun : ∀ (evs evs' : List Ev) (a b : Srv), run false a evs = some b → run false a (evs ++ evs') = run false b evs' := by
+    intro evs
+    induction evs with
+    | nil => intro evs' a b hab; simp only [run, Option.some.injEq] at hab; subst hab; rfl
+    | cons e es ih =>
+      intro evs' a b hab
+      cases hs : step false a e with
+      | none => simp [run, hs] at hab
+      | some a' =>
+        simp only [run, List.cons_append, hs] at hab ⊢
+        exact ih evs' a' b hab
+  have h0 : (Srv.new n) = { tokens := ⟨n, n - 0, 0⟩, serving := 0 } := by simp [Srv.new, Tokens.new]
+  rw [h0, hrun _ _ _ _ h]
+  simp [run, step]
+
 /-! ### The whole loop of a connection task, `k` requests waiting, the permit revoked by the `j`-th handler -/
 
 theorem servedUnder_some (k j : Nat) : ∀ (f r : Nat), r ≤ k → k - r + 1 ≤ f →
